@@ -14,6 +14,16 @@ def run(chk, prog, tier):
     CH.counting_increment_rule(chk, prog, roles)
     CH.division_sites_rule(chk, prog, roles)
     PL.gate_rule(chk, prog, roles)
+    # the room test is the same in every mode: counting needs the room plain assembly needs, not a chunk more
+    from checks import C07
+    C07.room_predicate(chk, prog, roles)
+    from valib import eff as EFF
+    from valib.core import loc_str
+    rc = prog.fn(roles.room_check)
+    moded = sorted({a.field for a in EFF.accesses(prog.body(rc)) if a.owner == "assemblyline" and a.field in ("assembly_mode", "chunk_size")})
+    chk.require(not moded, "ROOMMODE", "ROOMMODE/%s" % roles.room_check, loc_str(rc),
+                "the room check does not look at the mode or the chunk size (counting succeeds exactly where plain assembly does)",
+                "reads %s" % moded)
     chk.explanation = (
         "Decides: the driver zeroes the result before the per-line loop and every non-failing path of the counting entry "
         "points goes through it with the caller's pointer; the counting entry selects ASSEMBLE exactly when chunk_size < 2 "
